@@ -159,7 +159,7 @@ class RGSpace(StructuredDomain):
             # neighbors.
             # I'm appending the last value*2 to the array to treat the
             # rightmost point correctly.
-            return tmp[np.diff(np.r_[tmp, 2*tmp[-1]]) > tol]
+            return tmp[np.diff(np.r_[tmp, np.inf]) > tol]
 
     @staticmethod
     def _kernel(x, sigma):
